@@ -102,3 +102,59 @@ class RecordingMetric:
             {"ev": "metric", "a": [float(v) for v in a.values], "b": [float(v) for v in b.values],
              "ai": [int(i) for i in a.index], "bi": [int(i) for i in b.index]})
         return 7000.0 + COUNTER[self.tag]
+
+
+def make_table_forecaster():
+    """Forecaster whose error in CV fold f is exactly table[f-1] (series y[t] = 1000 + t):
+    fold f of F is recognised by its training length n - F + f - 1.  Outside the folds the
+    forecast is truth + 0.001 * (number of observations at the last (re)fit)."""
+    import pandas as pd
+    from sktime.forecasting.base._sktime import _SktimeForecaster, _OptionalForecastingHorizonMixin
+
+    class TableForecaster(_OptionalForecastingHorizonMixin, _SktimeForecaster):
+        def __init__(self, table=(0,), n=8, tag="t"):
+            self.table = table
+            self.n = n
+            self.tag = tag
+            super(TableForecaster, self).__init__()
+
+        def fit(self, y, X=None, fh=None):
+            self._set_y_X(y, X)
+            self._set_fh(fh)
+            self._n_epoch = len(y)
+            LOG.setdefault(self.tag, []).append(
+                {"ev": "fit", "table": list(self.table), "first": int(y.index[0]), "last": int(y.index[-1])})
+            self._is_fitted = True
+            return self
+
+        def _predict(self, fh, X=None, return_pred_int=False, alpha=0.05):
+            idx = fh.to_absolute(self.cutoff).to_pandas()
+            F = len(self.table)
+            f = self._n_epoch - (self.n - F) + 1
+            off = float(self.table[f - 1]) if 1 <= f <= F and len(self._y) == self._n_epoch \
+                else 0.001 * self._n_epoch
+            return pd.Series([1000.0 + int(t) + off for t in idx], index=idx)
+
+    return TableForecaster
+
+
+def make_identity_transformer():
+    from sktime.transformations.base import _SeriesToSeriesTransformer
+    from sktime.utils.validation.series import check_series
+
+    class IdentityTransformer(_SeriesToSeriesTransformer):
+        _tags = {"transform-returns-same-time-index": True, "univariate-only": True}
+
+        def fit(self, Z, X=None):
+            self._is_fitted = True
+            return self
+
+        def transform(self, Z, X=None):
+            self.check_is_fitted()
+            return check_series(Z).copy()
+
+        def inverse_transform(self, Z, X=None):
+            self.check_is_fitted()
+            return check_series(Z).copy()
+
+    return IdentityTransformer
